@@ -50,6 +50,29 @@ def layoutComponent (ord : G → M G) (cfg : Cfg) (c : G × List Nat) : M G := d
   let g ← phase5 cfg.p5 cfg.ls g
   pure (postProcess g c.2)
 
+/-! ### identifiers are carried, never read
+
+    After pre-processing the code never looks at a node id again (fact group `Ids`); the composed model makes that explicit: every
+    component runs through the pipeline with its ids blanked and gets them back, by node number, at the end. `T:pipeline` compares
+    THIS function (`layoutModelP`) with the public result of the real `Layout` on every traced run, names like "V1" and "" included. -/
+
+def eraseIds (g : G) : G := { g with nodes := g.nodes.map fun n => { n with id := "" } }
+
+/-- the first `tbl.size` nodes (the real ones) get their ids back; helper nodes keep the "V<k>" the pipeline gave them -/
+def reattach (tbl : Array String) (gf : G) : G :=
+  { gf with nodes := gf.nodes.mapIdx fun i n => if i < tbl.size then { n with id := tbl.getD i "" } else n }
+
+def idTable (g : G) : Array String := g.nodes.map (·.id)
+
+def layoutComponentP (ord : G → M G) (cfg : Cfg) (c : G × List Nat) : M G := do
+  let gf ← layoutComponent ord cfg (eraseIds c.1, c.2)
+  pure (reattach (idTable c.1) gf)
+
+def layoutModelP (ord : G → M G) (cfg : Cfg) (es : InEdges) : M Out := do
+  let comps ← preProcess cfg es
+  let finals ← comps.mapM (layoutComponentP ord cfg)
+  pure (collect cfg 0 0 finals)
+
 /-- `autog.Layout` -/
 def layoutModel (ord : G → M G) (cfg : Cfg) (es : InEdges) : M Out := do
   let comps ← preProcess cfg es
